@@ -230,6 +230,7 @@ func c08Sources(r *drv.Run) ([][]byte, map[string]int) {
 		}
 		add("regex-literal", s)
 	}
+	c08Openers(add)
 	return out, counts
 }
 
